@@ -34,6 +34,11 @@ struct vp_send : sender<int> {
   bool remove_successor(successor_type&) override { return true; }
 };
 static vp_raw<node_t> vp_node_mem;
+// typed storage for the node's input queue object (`new input_queue_type()` in the function_input_base constructor): the harness's
+// operator new stub hands it out (integer members must not live in pointer-typed pool cells: cbmc would not fold them)
+static vp_raw<node_t::input_queue_type> vp_queue_obj;
+extern "C" void* vp_queue_mem() { return &vp_queue_obj.x; }
+extern "C" unsigned long vp_queue_objsize() { return sizeof(node_t::input_queue_type); }
 static vp_raw<vp_send> vp_src_mem;
 static node_t& N() { return vp_node_mem.x; }
 extern "C" {
